@@ -121,6 +121,8 @@ def run(rep):
         "nchar of errors from match-rule processors is not judged (the property speaks of object processors); "
         "a non-TextXError without textxerror_wrap is expected to propagate unchanged",
         "filename is compared by base name; a string load has no file name",
+        "the metamodel (one built from the grammar string, one from the grammar file) is reused for all loads of "
+        "the run, as an application does: every load, not only the first one with a metamodel, must locate its error",
     ]
     _mc(rep, 2 if quick else 3)
     r, shapes = D.emit_shapes(tlc, 3 if quick else 4, max_refs=2)
